@@ -44,6 +44,8 @@ pub enum POp {
     Readlink { n: u16 },
     Statfs { n: u16 },
     Listdir { n: u16, plus: bool, size: u32 },
+    /// lookup a name, unlink it while referenced, create another file in the same directory (host inode reuse)
+    UnlinkCreate { p: u16, name: u8, newname: u8 },
 }
 
 #[derive(Clone, Debug, Serialize, Deserialize, PartialEq)]
@@ -258,6 +260,13 @@ pub fn apply(pt: &mut Pt, out: &mut Outcome, op: &POp) {
             let n = nsel(pt, *n);
             pt.statfs(out, n);
         }
+        POp::UnlinkCreate { p, name, newname } => {
+            let p = nsel(pt, *p);
+            if pt.lookup(out, p, nm(*name)).is_some() {
+                pt.unlink(out, p, nm(*name), false);
+                pt.create(out, p, nm(*newname), libc::O_RDWR as u32, 0o644, 0, 0, 0);
+            }
+        }
         POp::Listdir { n, plus, size } => {
             let n = nsel(pt, *n);
             listdir(pt, out, n, *plus, *size);
@@ -306,6 +315,9 @@ pub fn run_world(cs: &Case, out: &mut Outcome, mut after_step: impl FnMut(&mut P
     let mut pt = Pt::new(out, &cs.cfg, "/export", "/shadow")?;
     for op in &cs.ops {
         apply(&mut pt, out, op);
+        if std::env::var("FBV_DEBUG").is_ok() {
+            eprintln!("after {:?}: nodes {:?} handles {:?} fails {:?}", op, pt.nodes.iter().map(|(k, v)| (*k, v.count)).collect::<Vec<_>>(), pt.handles.iter().map(|h| (h.fh, h.nodeid, h.live)).collect::<Vec<_>>(), out.fails.len());
+        }
         after_step(&mut pt, out);
         if !out.fails.is_empty() {
             break;
